@@ -292,8 +292,48 @@ def _returns_live_fd(F, c, x):
     return okk
 
 
+def rule_e(ctx):
+    """one wake action per (instance, signal): a second registration of the same write end would write two bytes per delivery and survive the
+    instance (shared with C12.f)"""
+    from .C12 import rule_f
+    rule_f(ctx, rid="C13.e")
+
+
+def rule_f(ctx):
+    """the descriptor handed to register_raw is owned (wrapped in the closing owner) before anything that can panic: a refusal by panic must
+    release it like every other rejection"""
+    F = ctx.F
+    rid = "C13.f"
+    ctx.rule(rid, "in register_raw no explicit panic site (assert / panic / documented-panicking call) is reachable before the owning WakeFd exists "
+                  "(unwinding before that point leaks the descriptor)", floor=1)
+    from .C03 import panic_sites, undischarged_sites
+    rr = F.one("signal_hook::low_level::pipe::register_raw")
+    ctx.fn(rr)
+    aggs = {bb for bb, _, _ in adt_constructions(rr, WAKEFD)}
+    if not aggs:
+        raise AnchorLost("owner construction in register_raw")
+    early = cfg.reachable(rr, 0, avoid=aggs, unwind=False)
+    bad = []
+    for site in panic_sites(F, rr):
+        kind, key, bb, sp, info = site
+        if bb in early:
+            bad.append({"site": key, "where": sp})
+    for bb in sorted(early):
+        t = rr.term(bb)
+        if t["k"] == "call" and t.get("f") is not None:
+            c = F.inst[t["f"]]
+            if c.local and c.body is not None:
+                und, _ = undischarged_sites(ctx, F, [c])
+                for (fm, s, ch) in und[:2]:
+                    bad.append({"call": c.name[:120], "panic_site": s[1], "where": s[3]})
+    ctx.check(not bad, rid, "no-panic-before-owner", "nothing can panic in register_raw before the descriptor is wrapped in its closing owner", rr.span,
+              {"panic_sites_before_owner": bad, "why": "the refusal of a forbidden signal must release the descriptor (C14): a panic before WakeFd exists leaks it"})
+
+
 def run(ctx):
     from .. import fixtures
+    ctx.guarded("C13.e", rule_e)
+    ctx.guarded("C13.f", rule_f)
     ctx.guarded("C13.FX", lambda c: fixtures.run(c, ['escapes']))
     ctx.guarded("C13.d", rule_d)
     ctx.guarded("C13.a", rule_a)
